@@ -434,7 +434,7 @@ func run(cf cfg, path []int, depth int, dir string) (string, bool) {
 		stop = true
 	}
 	multiMode = cf.Multi
-	e := vsched.Run(nil, vsched.Options{MaxSteps: 2000000}, func() {
+	e := vsched.Run(nil, vsched.Options{MaxSteps: 2000000, KeepTrace: os.Getenv("C04_TRACE") != ""}, func() {
 		st, err := openStore(dir, cf)
 		if err != nil {
 			fail("open", err.Error())
@@ -541,6 +541,15 @@ func run(cf cfg, path []int, depth int, dir string) (string, bool) {
 		st.Close()
 	})
 	vos.CloseAll()
+	if os.Getenv("C04_TRACE") != "" { // debugging aid: the last scheduling decisions
+		tr := e.Trace
+		if len(tr) > 300 {
+			tr = tr[len(tr)-300:]
+		}
+		for _, l := range tr {
+			fmt.Println("TRACE", l)
+		}
+	}
 	if e.Failure != "" && sig == "" {
 		first := strings.SplitN(e.Failure, "\n", 2)[0]
 		if e.Deadlock || strings.Contains(first, "livelock") || strings.Contains(first, "step limit") {
